@@ -231,7 +231,7 @@ theorem distinct_filterMap (m : HMap) (g : Bytes × List Bytes → Option (Bytes
       | none => simp only [List.map_cons]; exact ih.cons _
       | some e' =>
         simp only [List.map_cons, hg _ _ hge]
-        exact ih.cons₂ _
+        exact ih.cons_cons _
   exact this.nodup h
 
 theorem vals_map (m : HMap) (f : Bytes × List Bytes → Bytes × List Bytes) (hf : ∀ e, (f e).1 = e.1)
